@@ -19,7 +19,7 @@ for m in idx:
                        stdout=subprocess.PIPE, stderr=subprocess.STDOUT, text=True)
     if m.get("expect") == "silent":
         # a behaviour-preserving (or property-irrelevant) edit: every named check must stay silent
-        silent = "FIRED" not in r.stdout and "DOES NOT APPLY" not in r.stdout
+        silent = "FIRED" not in r.stdout and "DOES NOT APPLY" not in r.stdout and "(exit 1)" not in r.stdout and "(exit 2)" not in r.stdout
         status = "OK-SILENT" if silent else "FALSE-ALARM"
         if not silent:
             bad += 1
